@@ -10,4 +10,4 @@ Definition g_defaults : list nat :=
    gen_default_DerivativeKeysPDEStatio_dyn_loss; gen_default_DerivativeKeysPDEStatio_observations; gen_default_DerivativeKeysPDEStatio_boundary_loss;
    gen_default_DerivativeKeysPDEStatio_norm_loss; gen_default_DerivativeKeysPDENonStatio_initial_condition]%list.
 Definition g_total (F : fld) := masked_total F g_keep.
-Definition g_derivkeys_wiring : bool := gen_terms_use_their_own_mask && gen_system_terms_use_their_own_mask.
+Definition g_derivkeys_wiring : bool := gen_terms_use_their_own_mask && gen_system_terms_use_their_own_mask && gen_from_str_field_by_field.
